@@ -15,12 +15,15 @@ package rawconfigtrafficcontroller
 // kind (Pipeline.Init -> filter.Init, Pipeline.Inherit -> filter.Inherit(prev)
 // then prev.Close(), Pipeline.Close -> filter.Close).
 //
-// Barrier: every snapshot carries one barrier business controller and one
-// barrier traffic gate whose spec changes every time; their Init/Inherit
-// signal that the consumer's run loop has reached this snapshot's event. The
-// snapshot is then pushed a second time (only the barriers change; by the
-// property this is a no-op for every real name): when the second pair of
-// signals arrives the first handleEvent calls have returned.
+// Barrier: every snapshot carries one barrier business controller (its spec
+// changes every time: Init/Inherit signal) and one barrier traffic gate (Init
+// signals); they tell that the consumer's run loop has reached this snapshot's
+// event. The snapshot is then pushed a second time with the business barrier
+// changed and the barrier gate REMOVED (its Close signals) — by the property
+// this is a no-op for every real name: when the second pair of signals arrives
+// the first handleEvent calls have returned. The barrier gate is transient so
+// that it never keeps the traffic controller's namespace alive: the last real
+// gate / pipeline of the namespace can disappear (TrafficController._cleanSpace).
 
 import (
 	"encoding/json"
@@ -211,7 +214,7 @@ func (o *trBarrierGate) Init(s *supervisor.Spec, _ context.MuxMapper) {
 func (o *trBarrierGate) Inherit(s *supervisor.Spec, p supervisor.Object, _ context.MuxMapper) {
 	trSigGate <- struct{}{}
 }
-func (o *trBarrierGate) Close() {}
+func (o *trBarrierGate) Close() { trSigGate <- struct{}{} }
 
 // recording filter: makes the real Pipeline's lifecycle observable
 type trFilterSpec struct {
@@ -589,7 +592,11 @@ func trExec1(raw json.RawMessage) interface{} {
 			}
 			barrier++
 			cfg[prefix+"zbarrier"] = fmt.Sprintf("name: zbarrier\nkind: VerifBarrier\nbody: %d\n", barrier)
-			cfg[prefix+"zbarriergate"] = fmt.Sprintf("name: zbarriergate\nkind: VerifBarrierGate\nbody: %d\n", barrier)
+			if round == 0 {
+				// the barrier gate is transient (created in round 0: Init signals; removed in round 1:
+				// Close signals), so that it never keeps the traffic controller's namespace alive
+				cfg[prefix+"zbarriergate"] = fmt.Sprintf("name: zbarriergate\nkind: VerifBarrierGate\nbody: %d\n", barrier)
+			}
 			select {
 			case syncCh <- cfg:
 			case <-time.After(8 * time.Second):
@@ -654,6 +661,10 @@ func trGen(r *verifh.Rand, i int) interface{} {
 		steps = 20
 	}
 	steps = r.Range(steps/2, steps)
+	if r.Bool(2, 5) {
+		trScenario(r, &in, steps)
+		return in
+	}
 	valid := []int{0, 1, 2, 3, 4}
 	sameSlot := map[int]int{0: 1, 1: 0, 2: 3, 3: 2, 4: 4}
 	cur := map[int]trEntry{}
@@ -700,6 +711,108 @@ func trGen(r *verifh.Rand, i int) interface{} {
 		in.Panics = append(in.Panics, trPanic{Op: r.Pick("init", "inherit", "close"), Name: r.Intn(nNames), Kind: r.Intn(4), Body: r.Intn(3)})
 	}
 	return in
+}
+
+// trScenario: namespace bookkeeping. Pipelines and traffic gates live together in the (single)
+// namespace; then the last object of ONE category disappears (removed, or moved to another
+// category / to a business controller) while the other category stays; follow-up snapshots
+// change, keep and remove the survivors and bring the vanished category back.
+func trScenario(r *verifh.Rand, in *trInput, steps int) {
+	const nNames = 4
+	cur := map[int]trEntry{}
+	emit := func() {
+		var snap []trEntry
+		for n := 0; n < nNames; n++ {
+			if e, ok := cur[n]; ok {
+				snap = append(snap, e)
+			}
+		}
+		in.Hist = append(in.Hist, trItem{IsSnap: true, Snap: snap})
+	}
+	gateKinds := []int{2, 3}
+	isGate := func(k int) bool { return k == 2 || k == 3 }
+	// phase 1: one or two objects of each category (possibly in two snapshots), maybe a controller
+	nP, nG := r.Range(1, 2), r.Range(1, 2)
+	names := []int{0, 1, 2, 3}
+	for k := len(names) - 1; k > 0; k-- {
+		j := r.Intn(k + 1)
+		names[k], names[j] = names[j], names[k]
+	}
+	idx := 0
+	for i := 0; i < nP && idx < nNames; i++ {
+		cur[names[idx]] = trEntry{Name: names[idx], Kind: 4, Body: r.Intn(3)}
+		idx++
+	}
+	if r.Bool(1, 2) {
+		emit()
+	}
+	for i := 0; i < nG && idx < nNames; i++ {
+		cur[names[idx]] = trEntry{Name: names[idx], Kind: gateKinds[r.Intn(2)], Body: r.Intn(3)}
+		idx++
+	}
+	if idx < nNames && r.Bool(1, 3) {
+		cur[names[idx]] = trEntry{Name: names[idx], Kind: r.Intn(2), Body: r.Intn(3)}
+	}
+	emit()
+	for len(in.Hist) < steps+5 {
+		// phase 2: the last object(s) of one category disappear, the other category stays
+		victimGates := r.Bool(2, 3)
+		for n, e := range cur {
+			if (victimGates && isGate(e.Kind)) || (!victimGates && e.Kind == 4) {
+				switch r.Intn(4) {
+				case 0: // moved to the other traffic category
+					if victimGates {
+						e.Kind = 4
+					} else {
+						e.Kind = gateKinds[r.Intn(2)]
+					}
+					cur[n] = e
+				case 1: // becomes a business controller
+					e.Kind = r.Intn(2)
+					cur[n] = e
+				default:
+					delete(cur, n)
+				}
+			}
+		}
+		emit()
+		// phase 3: follow-ups on the survivors
+		for f := r.Range(1, 3); f > 0; f-- {
+			for n, e := range cur {
+				if e.Kind != 4 && !isGate(e.Kind) {
+					continue
+				}
+				switch r.Intn(5) {
+				case 0, 1: // spec change (must be inherited)
+					e.Body = (e.Body + 1) % 3
+					cur[n] = e
+				case 2: // removed (must be closed)
+					delete(cur, n)
+				}
+			}
+			if r.Bool(1, 3) { // same snapshot again
+			}
+			emit()
+		}
+		// phase 4: the vanished category comes back (fresh namespace entry next to the survivors)
+		for n := 0; n < nNames; n++ {
+			if _, ok := cur[n]; !ok && r.Bool(1, 2) {
+				k := 4
+				if r.Bool(1, 2) {
+					k = gateKinds[r.Intn(2)]
+				}
+				cur[n] = trEntry{Name: n, Kind: k, Body: r.Intn(3)}
+			}
+		}
+		emit()
+	}
+	if r.Bool(1, 2) {
+		cur = map[int]trEntry{}
+		emit()
+	}
+	if r.Bool(1, 3) {
+		in.Panics = append(in.Panics, trPanic{Op: r.Pick("init", "inherit", "close"), Name: r.Intn(nNames), Kind: r.Range(2, 3), Body: r.Intn(3)})
+	}
 }
 
 func TestVerifC20Traffic(t *testing.T) {
